@@ -117,7 +117,7 @@ theorem C03_reindex_exact (okRef : Bytes → Bool) (rs : List Rec) (r : Rec) (k 
       ((reindexFrom okRef true i [encodePack rs ++ (encodeRecord r).take k] []).1.get x.ref).isSome) := by
   have hw := C03_reindex_torn_body okRef rs r k h hr hk
   simp only [reindexFrom, hw]
-  refine ⟨rfl, ?_, ?_⟩
+  refine ⟨trivial, ?_, ?_⟩
   · intro ref m hm
     rcases setEntries_get [] i _ ref m hm with ⟨e, he, href, hmeq⟩ | hnil
     · obtain ⟨pre, x, post, hrs, hee⟩ := mem_entriesOf rs 0 e he
@@ -138,6 +138,23 @@ theorem C03_reindex_exact (okRef : Bytes → Bool) (rs : List Rec) (r : Rec) (k 
     have hmem := entryOf_mem_entriesOf pre x post 0
     rw [← hrs] at hmem
     exact setEntries_get_live [] i _ _ x.ref hmem (by simp [entryOf, hd])
+
+/-- **StreamBlobs never presents a partial blob**: over complete records followed by any strict prefix of
+a further record (torn header or torn body) the streamer sends exactly the complete live records,
+each with its complete body, and nothing for the torn one -/
+theorem C03_stream_no_partial (okRefB : Bytes → Bool) (rs : List Rec) (r : Rec) (k : Nat)
+    (h : ∀ x ∈ rs, recOKS okRefB x = true) (hr : recOKS okRefB r = true) (hk : k < (encodeRecord r).length) :
+    (streamPacks okRefB [encodePack rs ++ (encodeRecord r).take k]).1 = liveOf rs := by
+  have hF : rs.length ≤ (encodePack rs ++ (encodeRecord r).take k).length + 1 := by
+    have := encodePack_length_ge rs; simp; omega
+  have h1 := streamPack_encodePack okRefB rs _ ((encodeRecord r).take k) h hF
+  have h2 := streamPack_torn okRefB ((encodePack rs ++ (encodeRecord r).take k).length + 1 - rs.length) r k hr hk
+  simp only [streamPacks]
+  rw [h1, h2]
+  split <;> simp_all
+
+example : recOKS (fun _ => true) ⟨[98, 45, 99], [1, 2, 3]⟩ = true ∧
+    liveOf [⟨[98, 45, 99], [1, 2, 3]⟩, ⟨[120, 45, 48], [0]⟩] = [([98, 45, 99], [1, 2, 3])] := by decide
 
 /-! ## with the index intact: crash states of an append -/
 
@@ -260,6 +277,8 @@ theorem C03_append_crash_states (effs : List Eff) (h : appSafe 0 false effs = tr
     rw [e]
     exact ⟨h2, Or.inr h1, fun _ => h1, h3, fun r n b hf => C03_fetch_full_size _ h3 r n b hf⟩
 
+/-- the hypotheses of the crash-state theorems hold of the empty store (and, by
+`C03_append_preserves_inBounds`, of everything reached from it by appends) -/
 example : InBounds (Store.init 0) ∧ (Store.init 0).packs ≠ [] := by
   refine ⟨?_, by decide⟩
   intro r m h; simp [Store.init, Index.get] at h
@@ -392,6 +411,28 @@ theorem C03_delete_crash_states_counterexample :
     (st.crashDelete [98, 45, 99] true true false).packs = [encodeRecord ⟨[120, 45, 48], [0, 0, 0]⟩] := by
   decide
 
+/-- the hypotheses of `C03_delete_crash_states_partial` hold of that store (`pre = post = []`, name `b`,
+digest `c`) -/
+example :
+    let st : Store := ⟨[encodeRecord ⟨[98, 45, 99], [1, 2, 3]⟩], [([98, 45, 99], ⟨0, 7, 3⟩)], 1000⟩
+    st.packs[0]? = some ([] ++ encodeHeader ([98] ++ 45 :: [99]) [1, 2, 3].length ++ ([1, 2, 3] ++ [])) ∧
+    st.index.get ([98] ++ 45 :: [99]) =
+      some ⟨0, ([] : Bytes).length + (encodeHeader ([98] ++ 45 :: [99]) [1, 2, 3].length).length, [1, 2, 3].length⟩ := by
+  decide
+
+/-- finding F-C03-4: the record of `b-c` is in the pack twice (a receive that crashed after the record was
+complete but before its row, then the client's retry); `RemoveBlobs` rewrites only the indexed
+(second) record, so Reindex from the packs alone lists the removed blob again, and StreamBlobs
+presents it -/
+theorem C03_removed_duplicate_counterexample :
+    let st0 : Store := Store.init 0
+    let st1 := (st0.crashAppend [98, 45, 99] [1, 2, 3] 10 false false).receive [98, 45, 99] [1, 2, 3]
+    let st2 := st1.remove [[98, 45, 99]]
+    st1.fetch [98, 45, 99] = .ok 3 [1, 2, 3] ∧ st2.fetch [98, 45, 99] = .notExist ∧
+    ((st2.reindex (fun _ => true) true true).1.fetch [98, 45, 99] = .ok 3 [1, 2, 3]) ∧
+    (streamPacks (fun _ => true) st2.packs).1 = [([98, 45, 99], [1, 2, 3])] := by
+  decide
+
 /-- the completed removal (`RemoveBlobs`) of that store: the row is gone and the record has the deleted
 form, which the walker skips -/
 example :
@@ -401,3 +442,150 @@ example :
   decide
 
 end Pk.Pack
+
+namespace Pk.FilesStore
+
+/-! ## files store: write temp, fsync, close, rename -/
+
+/-- obligation on the regenerated order of `files.ReceiveBlob`: on the success path and on every error
+path (the calls before the failing one, then the deferred `Remove`) the temp file is created once,
+written once, synced before the rename, nothing touches it after the rename, only VFS calls occur;
+the success path ends with the rename done -/
+theorem C03_gen_files_effects : CrashSafePred Pk.Gen.filesReceiveEffects = true := by decide
+
+/-- the temp name (`<ref>.dat.tmp<digits>`: whatever `TempFile` appends to the prefix ends in a digit) is
+never a `.dat` name, and so never the blob's own file name -/
+theorem C03_files_tmp_not_dat (root ref data : Bytes) (n : Nat) :
+    hasSuffix (tmpName (ctxOf root ref data).dir (ctxOf root ref data).pfx n) dotDat = false ∧
+    tmpName (ctxOf root ref data).dir (ctxOf root ref data).pfx n ≠ (ctxOf root ref data).final := by
+  refine ⟨tmpName_not_dat _ _ _, tmpName_ne_dat _ _ _ _ ?_⟩
+  simp only [ctxOf, blobPath, blobFileBaseName, join]
+  rw [show blobDirectory root ref ++ 47 :: (ref ++ dotDat) = (blobDirectory root ref ++ 47 :: ref) ++ dotDat by simp]
+  exact hasSuffix_append _ _
+
+/-- the paths a receive may take through an effect list: the success path, or the error path of a call
+that fails -/
+def IsPath (l : List EffAt) (path : List Eff) : Prop :=
+  path = successPath l ∨ ∃ k, k ≤ (spine l).length ∧ path = errorPath l k
+
+theorem scan_of_pred (l : List EffAt) (h : CrashSafePred l = true) (path : List Eff) (hp : IsPath l path) :
+    ∃ a, scan 0 path = some a := by
+  simp only [CrashSafePred, Bool.and_eq_true, beq_iff_eq, List.all_eq_true, List.mem_range] at h
+  rcases hp with hp | ⟨k, hk, hp⟩
+  · exact ⟨4, by rw [hp]; exact h.1⟩
+  · have := h.2 k (by omega)
+    rw [hp]
+    cases hs : scan 0 (errorPath l k) with
+    | none => rw [hs] at this; cases this
+    | some a => exact ⟨a, rfl⟩
+
+/-- a VFS as a restart finds it: nothing un-synced, and `TempFile` will not hand out an existing name -/
+def Restarted (c : Ctx) (v0 : VFS) : Prop :=
+  (∀ f ∈ v0.files, f.dur = f.cur) ∧ (∀ f ∈ v0.files, ∀ n, v0.counter ≤ n → f.path ≠ tmpName c.dir c.pfx n)
+
+/-- **files store, every crash instant**: for EVERY effect order satisfying `CrashSafePred`, every path
+through it (success or any failing call), every prefix `k` of that path and every amount `j` of
+un-synced data that survives: after the crash every file at the blob's path is either a file that
+was there before the receive, unchanged, or holds exactly the new data – never a partial blob –
+and every other file that is not one of this receive's temp files is exactly as before -/
+theorem C03_files_crash_safe (l : List EffAt) (hl : CrashSafePred l = true) (c : Ctx) (v0 : VFS)
+    (hT : ∀ n, tmpName c.dir c.pfx n ≠ c.final) (h0 : Restarted c v0)
+    (path : List Eff) (hp : IsPath l path) (k j : Nat) :
+    (∀ f ∈ ((run c ⟨v0, none⟩ (path.take k)).vfs.crash j).files, f.path = c.final →
+      f.dur = f.cur ∧ (f.cur = c.data ∨ f ∈ v0.files)) ∧
+    (∀ f ∈ ((run c ⟨v0, none⟩ (path.take k)).vfs.crash j).files, f.path ≠ c.final →
+      (∀ n, f.path ≠ tmpName c.dir c.pfx n) → f ∈ v0.files) ∧
+    (∀ f ∈ v0.files, f.path ≠ c.final → (∀ n, f.path ≠ tmpName c.dir c.pfx n) →
+      f ∈ ((run c ⟨v0, none⟩ (path.take k)).vfs.crash j).files) := by
+  obtain ⟨aEnd, hs⟩ := scan_of_pred l hl path hp
+  have hb0 : Base c v0 ⟨v0, none⟩ :=
+    ⟨fun t ht => (by cases ht), fun f hf _ => ⟨h0.1 f hf, Or.inr hf⟩, fun f hf _ _ => hf, fun f hf _ _ => hf, h0.2⟩
+  obtain ⟨ak, hb, _⟩ := run_safe c v0 hT path 0 aEnd ⟨v0, none⟩ hs hb0 trivial k
+  refine ⟨?_, ?_, ?_⟩
+  · intro f' hf' hp'
+    simp only [VFS.crash, List.mem_map] at hf'
+    obtain ⟨f, hf, e⟩ := hf'
+    have hpf : f.path = c.final := by rw [← e] at hp'; exact hp'
+    obtain ⟨h1, h2⟩ := hb.final f hf hpf
+    rw [crashFile_clean j f h1] at e
+    subst e; exact ⟨h1, h2⟩
+  · intro f' hf' hp' hn
+    simp only [VFS.crash, List.mem_map] at hf'
+    obtain ⟨f, hf, e⟩ := hf'
+    have hpf : f.path = f'.path := by rw [← e]; rfl
+    have hin := hb.frame1 f hf (by rw [hpf]; exact hp') (by rw [hpf]; exact hn)
+    rw [crashFile_clean j f (h0.1 f hin)] at e
+    subst e; exact hin
+  · intro f hf hp' hn
+    have hin := hb.frame2 f hf hp' hn
+    simp only [VFS.crash, List.mem_map]
+    exact ⟨f, hin, crashFile_clean j f (h0.1 f hf)⟩
+
+/-- **acknowledged ⇒ durable**: once the success path has run to its end, the blob's file exists and,
+whatever un-synced data a crash drops, holds exactly the data -/
+theorem C03_files_ack_durable (l : List EffAt) (hl : CrashSafePred l = true) (c : Ctx) (v0 : VFS)
+    (hT : ∀ n, tmpName c.dir c.pfx n ≠ c.final) (h0 : Restarted c v0) (j : Nat) :
+    ∃ f, ((run c ⟨v0, none⟩ (successPath l)).vfs.crash j).lookup c.final = some f ∧
+      (f.cur = c.data ∨ f ∈ v0.files) ∧ f.dur = f.cur := by
+  have hs : scan 0 (successPath l) = some 4 := by
+    simp only [CrashSafePred, Bool.and_eq_true, beq_iff_eq] at hl; exact hl.1
+  have hb0 : Base c v0 ⟨v0, none⟩ :=
+    ⟨fun t ht => (by cases ht), fun f hf _ => ⟨h0.1 f hf, Or.inr hf⟩, fun f hf _ _ => hf, fun f hf _ _ => hf, h0.2⟩
+  -- follow the scan to its end: the abstract state there is 4
+  have key : ∀ (effs : List Eff) (a : Nat) (s : RunSt), scan a effs = some 4 → Base c v0 s → Rel c a s →
+      Base c v0 (run c s effs) ∧ Rel c 4 (run c s effs) := by
+    intro effs
+    induction effs with
+    | nil => intro a s h hb hr; simp only [scan, Option.some.injEq] at h; subst h; exact ⟨hb, hr⟩
+    | cons e t ih =>
+      intro a s h hb hr
+      simp only [scan] at h
+      cases hse : scanStep a e with
+      | none => simp [hse] at h
+      | some a1 =>
+        simp only [hse] at h
+        obtain ⟨hb1, hr1⟩ := step_safe c v0 hT a a1 e s hse hb hr
+        simpa [run] using ih a1 (step c s e) h hb1 hr1
+  obtain ⟨hb, f0, hf0, hp0⟩ := key (successPath l) 0 ⟨v0, none⟩ hs hb0 trivial
+  have hex : ∃ f ∈ ((run c ⟨v0, none⟩ (successPath l)).vfs.crash j).files, f.path = c.final :=
+    ⟨crashFile j f0, by simp only [VFS.crash, List.mem_map]; exact ⟨f0, hf0, rfl⟩, hp0⟩
+  cases hl' : ((run c ⟨v0, none⟩ (successPath l)).vfs.crash j).lookup c.final with
+  | none =>
+    have := lookup_isSome _ _ hex
+    rw [hl'] at this; cases this
+  | some f =>
+    obtain ⟨hmem, hpath⟩ := lookup_some _ _ _ hl'
+    have hall := (C03_files_crash_safe l hl c v0 hT h0 (successPath l) (Or.inl rfl) (successPath l).length j).1
+    rw [List.take_length] at hall
+    obtain ⟨h1, h2⟩ := hall f hmem hpath
+    exact ⟨f, rfl, h2, h1⟩
+
+example : Restarted (ctxOf [47, 114] [98, 45, 99] [1, 2]) ⟨[[47, 114]], [], 1⟩ := by
+  constructor <;> intro f hf <;> cases hf
+
+/-- the generated order, run on an empty store with its success path cut after `copy` (3 effects) and all
+un-synced data kept: the data sits in the temp file only -/
+example :
+    ((run (ctxOf [47, 114] [98, 45, 99] [1, 2]) ⟨⟨[[47, 114]], [], 1⟩, none⟩
+      ((successPath Gen.filesReceiveEffects).take 3)).vfs.crash 9).files.map (fun f => (hasSuffix f.path dotDat, f.cur)) =
+      [(false, [1, 2])] := by decide
+
+/-- **enumerate ignores temp files**: every entry `EnumerateBlobs` lists is a file named `<ref>.dat` (so
+never a `TempFile` name, which ends in a digit) and carries that file's size -/
+theorem C03_files_enumerate_ignores_tmp (okRef : Bytes → Bool) (v : VFS) (root : Bytes) :
+    ∀ e ∈ (enumerate okRef v root).1, ∃ f ∈ v.files, hasSuffix f.path dotDat = true ∧
+      (∃ d, f.path = join d (e.1 ++ dotDat)) ∧ e.2 = f.cur.length ∧
+      ∀ dir pfx n, f.path ≠ tmpName dir pfx n := by
+  intro e he
+  have hs : EnumSound v (enumerate okRef v root).1 := by
+    unfold enumerate
+    split
+    · exact readBlobs_sound okRef v 8 root
+    · intro e he; cases he
+  obtain ⟨f, hf, d, hp, hsz⟩ := hs e he
+  have hdat : hasSuffix f.path dotDat = true := by
+    rw [hp, join, show d ++ 47 :: (e.1 ++ dotDat) = (d ++ 47 :: e.1) ++ dotDat by simp]
+    exact hasSuffix_append _ _
+  exact ⟨f, hf, hdat, ⟨d, hp⟩, hsz, fun dir pfx n e' => tmpName_ne_dat dir pfx n _ hdat e'.symm⟩
+
+end Pk.FilesStore
